@@ -223,6 +223,78 @@ def run(ck, prog, tier, load):
     ck.anchor("C19-a", n_sub, 12, "overflow-checked subtractions in peer-facing parsing code")
     ck.anchor("C19-a", n_add, 2, "overflow-checked additions/multiplications on wire integers")
 
+    # ---- (c) fixed-offset slicing of peer data is length-guarded ------------------------------
+    n_sl = n_skip = 0
+    for b in sorted(prog.bodies.values(), key=lambda x: (x.file, x.lo, x.path)):
+        if not b.file.endswith(FILES) or "::tests::" in b.npath or "::test::" in b.npath or b.dk in ("Const", "AssocConst", "Static"):
+            continue
+        fn = "::".join(b.npath.split("::")[-2:])
+        for bb, t in b.calls(r"Index<I> for \[T\]>::index$|IndexMut<I> for \[T\]>::index_mut$|core::slice::split_at$|<impl \[T\]>::split_at$|BytesMut::split_to$|Bytes::split_to$"):
+            if is_noise(b, bb) or len(t["args"]) < 2:
+                continue
+            recv = core_of(b.op_expr(t["args"][0]))
+            idx = b.op_expr(t["args"][1])
+            need = bound_needed(idx)      # (X_expr_or_None, k) : requires X + k <= len(recv)
+            if need is None:
+                continue
+            X, k = need
+            if X is None and k == 0:
+                continue
+            if X is not None and (k == 0 or strip(X)[0] == "phi"):
+                n_skip += 1     # base is a loop-carried / multi-valued variable: relation to the length is a loop invariant, not decided
+                continue
+            def enough(c, lab, X=X, k=k, recv=recv):
+                if not isinstance(lab, bool):
+                    return False
+                n = norm_cmp(c, lab)
+                if not n:
+                    # `!x.is_empty()` establishes len >= 1
+                    c2, tr = strip_not(c, True)
+                    if X is None and k <= 1 and c2[0] == "call" and rx(r"is_empty$").search(c2[1] or "") and c2[2] and same_obj(core_of(c2[2][0]), recv):
+                        return (lab if tr else not lab) is False
+                    return False
+                op, p_, q_, truth = n
+                p_, q_ = strip(p_), strip(q_)
+                def is_len(e):
+                    cs = e_calls(e, r"::len$")
+                    return bool(cs) and any(same_obj(core_of(c_[2][0]), recv) for c_ in cs if c_[2])
+                def off(e):
+                    """(X', k') for e == X' + k' or const k'"""
+                    if e[0] == "const" and e[2] is not None:
+                        return None, e[2]
+                    if e[0] == "place" and e[1][0] == "bin" and e[1][1] in ("Add", "AddWithOverflow"):
+                        r_ = strip(e[1][3])
+                        if r_[0] == "const" and r_[2] is not None:
+                            x2, k2 = off(strip(e[1][2]))
+                            return (strip(e[1][2]) if x2 is None and k2 == 0 else x2), k2 + r_[2]
+                    return e, 0
+                # forms:  X+k' <= len (true) ; !(len < X+k') ; !(len <= X+k'-1) ; X+k'-1 < len
+                if is_len(q_):
+                    x2, k2 = off(p_)
+                    if (X is None) == (x2 is None) and (X is None or same(x2, X)):
+                        if op == "Le" and truth is True and k2 >= k:
+                            return True
+                        if op == "Lt" and truth is True and k2 + 1 >= k:
+                            return True
+                if is_len(p_):
+                    x2, k2 = off(q_)
+                    if (X is None) == (x2 is None) and (X is None or same(x2, X)):
+                        if op == "Lt" and truth is False and k2 >= k:
+                            return True      # !(len < X+k2)  => len >= X+k2
+                        if op == "Le" and truth is False and k2 + 1 >= k:
+                            return True      # !(len <= X+k2) => len >= X+k2+1
+                return False
+            has_related = bool(edges_where(b, lambda c, lab: enough_related(c, lab, X, recv)))
+            if not has_related and X is not None:
+                n_skip += 1
+                continue
+            n_sl += 1
+            ok, wit = guarded_by(b, bb, enough)
+            ck.ob("C19-c.slice-length-guarded", "%s|%s|%s" % (fn, canon(recv, 3), canon(idx, 3)), ok, b, bb,
+                  "slicing `%s[%s]` needs %s%d bytes; every path must cross a length test establishing that" % (short(recv, 2), short(idx, 3), (short(X, 2) + " + ") if X is not None else "", k), witness=b.path_lines(wit))
+    ck.anchor("C19-c", n_sl, 6, "fixed-offset slice operations with a related length test")
+    ck.note("C19-c: %d fixed-offset slice sites had no length comparison on the same base in their function and are not decided" % n_skip)
+
     # ---- (b) unsafe header writer -------------------------------------------------------------
     eh = prog.one(r"^actix_http::h1::encoder::MessageType::encode_headers$")
     clo = [c for c in prog.with_closures(eh) if c is not eh and any(True for _ in c.calls(r"encoder::write_data$"))]
@@ -267,6 +339,78 @@ def run(ck, prog, tier, load):
         # the reserve is taken when len > remaining
         ok = bool(rs) and all(guarded_by(c, r_, cmp_pred("Le", lambda e: True, lambda e: any(isinstance(p, str) and rx(r"remaining$").search(p) for x in walk(e) if x[0] == "place" for p in x[2]), False))[0] for r_ in rs)
         ck.ob("C19-b.reserve-when-short", "encode_headers", ok, c, rs[0] if rs else None, "capacity is reserved exactly on the edge len > remaining")
+
+
+def core_of(e):
+    while isinstance(e, tuple):
+        if e[0] == "call" and e[2] and rx(r"Deref>::deref$|Deref::deref$|AsRef.*::as_ref$|DerefMut>::deref_mut$").search(e[1] or ""):
+            e = e[2][0]
+        elif e[0] == "cast":
+            e = e[1]
+        else:
+            break
+    return e
+
+
+def same_obj(a, b_):
+    if same(a, b_):
+        return True
+    fa = [p for x in walk(a) if x[0] == "place" for p in x[2] if isinstance(p, str) and p.startswith(".")]
+    fb = [p for x in walk(b_) if x[0] == "place" for p in x[2] if isinstance(p, str) and p.startswith(".")]
+    if fa and fb and fa[-1] == fb[-1]:
+        return True
+    ra = {r[1] for r in e_roots(a) if r[0] in ("arg", "var", "phi")}
+    rb = {r[1] for r in e_roots(b_) if r[0] in ("arg", "var", "phi")}
+    return bool(ra) and ra == rb and not fa and not fb
+
+
+def bound_needed(idx):
+    """upper bound a slice operation needs: (X, k) meaning X + k <= len; X None for constants"""
+    def off(e):
+        e = strip(e)
+        if e[0] == "const" and e[2] is not None:
+            return None, e[2]
+        if e[0] == "place" and e[1][0] == "bin" and e[1][1] in ("Add", "AddWithOverflow"):
+            r_ = strip(e[1][3])
+            if r_[0] == "const" and r_[2] is not None:
+                x2, k2 = off(e[1][2])
+                return (strip(e[1][2]) if x2 is None and k2 == 0 and strip(e[1][2])[0] != "const" else x2), k2 + r_[2]
+        return e, 0
+    if idx[0] == "agg":
+        nm = (idx[2] or "").split("::")[-1]
+        ops = idx[3]
+        if nm == "Range" and len(ops) == 2:
+            return off(ops[1])
+        if nm == "RangeTo" and len(ops) == 1:
+            return off(ops[0])
+        if nm == "RangeFrom" and len(ops) == 1:
+            return off(ops[0])
+        return None
+    if idx[0] == "call" and rx(r"RangeInclusive.*::new$").search(idx[1] or "") and len(idx[2]) == 2:
+        x, k = off(idx[2][1])
+        return x, k + 1
+    if idx[0] == "const" and idx[2] is not None:
+        return None, idx[2]        # split_at(n) / split_to(n)
+    x, k = off(idx)
+    if x is not None and x[0] in ("call",):
+        return None                # length taken from another computation (min(..), find(..)): not a fixed offset
+    return (x, k) if (x is None or k > 0) else None
+
+
+def enough_related(c, lab, X, recv):
+    """is this branch a length comparison on the same buffer (and same base X)?"""
+    if not isinstance(lab, bool):
+        return False
+    n = norm_cmp(c, lab)
+    if not n:
+        return False
+    sides = [strip(n[1]), strip(n[2])]
+    has_len = any(any(c_[2] and same_obj(core_of(c_[2][0]), recv) for c_ in e_calls(s_, r"::len$")) for s_ in sides)
+    if not has_len:
+        return False
+    if X is None:
+        return any(s_[0] == "const" for s_ in sides)
+    return any(any(same(y, X) for y in walk(s_) if isinstance(y, tuple)) for s_ in sides)
 
 
 def table_reason(fn, op, ops):
